@@ -788,3 +788,45 @@ def fs12(P, C):
         else:
             det = "std::%s(first, last, other) compares floats with ==: NaN != NaN, so a table with a NaN coefficient is unequal to its exact copy and to itself" % cal["name"]
         C.ob("FS-12", "operator==", "nan-reflexive:coefficients", ok, f.loc(i), det)
+
+
+def fs13(P, C):
+    """FS-13: what a pixel read stored is what the table holds."""
+    from . import ts
+    C.rule("FS-13", "in the reader no element of an array that fits_read_pix has filled (coefficients, knots[i][..], extents[i][..]) is stored "
+           "again on a path that follows the read, neither by an assignment nor by a mutating algorithm: a value that is adjusted after it was "
+           "read (clamped, rounded, normalised) is not the value the file holds, and the table no longer equals the one that was written", floor=3)
+    fs_ = [f for f in P.fns("read_fits_core") if f.cls == ts.CLS and f.unit == "driver"]
+    if not fs_:
+        raise core.AnalysisBroken("FS-13: read_fits_core not found")
+    f = fs_[0]
+    pos = f.node_positions()
+    reads = []
+    for i, cal in f.calls():
+        if cal and (f.call_macro(i) == "fits_read_pix" or cal["name"] in ("ffgpxv", "ffgpxvll")) and i in pos:
+            a = f.args(i)
+            r = ts.root_member(f, a[5]) if len(a) > 5 else None
+            if r is None:
+                C.ob("FS-13", "read_fits_core", "destination@%s" % f.loc(i), False, f.loc(i), "fits_read_pix stores into %s, which is not an array of the table" %
+                     (f.render(a[5]) if len(a) > 5 else "?"))
+                continue
+            reads.append((i, r[0], r[1] + 1))           # &A[..][0] has depth one less than the elements it covers
+    if len(reads) < 3:
+        raise core.AnalysisBroken("FS-13: expected pixel reads for coefficients, knots and extents, found %d" % len(reads))
+    stores = []
+    for b, blk in f.blocks.items():
+        for j, e in enumerate(blk["elems"]):
+            if e.get("kind") != "stmt":
+                continue
+            for (field, depth, how) in ts.member_writes(f, e["n"]):
+                stores.append((e["n"], b, j, field, depth, how))
+    for (ri, field, edepth) in reads:
+        rb, rj = pos[ri]
+        after = f.reachable_blocks_from_succs(rb)
+        bad = [(n_, how) for (n_, b, j, fld, depth, how) in stores if fld == field and depth >= edepth and n_ != ri and
+               (b in after or (b == rb and j > rj)) and not (how.startswith("extern") and n_ in set(f.walk(ri)) | {ri})]
+        bad = [(n_, how) for n_, how in bad if not ((f.nodes[n_].get("callee") or {}).get("name") in ("ffgpxv", "ffgpxvll"))]
+        C.ob("FS-13", "read_fits_core", "read-is-final:%s" % field, not bad, f.loc(bad[0][0]) if bad else f.loc(ri),
+             "nothing stores into the elements of %s after they were read from the file" % field if not bad else
+             "%s (%s) changes elements of %s after fits_read_pix filled them at %s: the table differs from the file it was read from" %
+             (f.render(bad[0][0])[:90], bad[0][1], field, f.loc(ri)))
